@@ -441,3 +441,63 @@ Definition fname_prefix (e : err) (l : str) : str :=
   | FnStr (c :: f) => (c :: f) ++ k_colon_sp ++ l
   | _ => l
   end.
+
+(* ------------------------------------------------------------------------------- *)
+(* the constructors of the error classes: what __init__ stores, from what it is given *)
+
+(* a Scanner / LowLevelParser as far as the error classes read it (scanner.py:55-66):
+   Scanner(text, filename) -- the file name a parser carries is None or text *)
+Record scanner := mkScanner { sc_text : str; sc_filename : option str; sc_lineno : Z; sc_pos : Z }.
+(* AuxDataContext, auxfile.py:53-59 *)
+Record auxctx := mkAuxctx { ax_filename : option str; ax_lineno : option Z; ax_line : option str }.
+
+Definition fname_of (o : option str) : fname := match o with None => FnNone | Some s => FnStr s end.
+
+(* PybtexError(message, filename=None), exceptions.py:28-30; also BibTeXError, BibliographyDataError,
+   ConvertError (same __init__) and InvalidNameString, DuplicateField, PluginNotFound,
+   PluginGroupNotFound, FieldIsMissing (their __init__ builds the message and passes no file name).
+   The file name is whatever the caller passes: FnBad for builtins.py:214 *)
+Definition new_pybtex_error (id : N) (msg : str) (fn : fname) : err := mkErr id msg fn SPlain CNone.
+
+(* PybtexSyntaxError(message, parser), scanner.py:146-150; error_type is a class attribute
+   ('syntax error'; UndefinedMacro: 'undefined string'); also UnbalancedBraceError *)
+Definition new_syntax_error (id : N) (etype msg : str) (p : scanner) : err :=
+  mkErr id msg (fname_of (sc_filename p)) (SSyntax etype (Some (sc_lineno p))) CNone.
+
+(* PrematureEOF(parser), scanner.py:162-165 *)
+Definition new_premature_eof (id : N) (p : scanner) : err :=
+  new_syntax_error id k_syntax_error k_premature_end_of_file p.
+
+(* TokenRequired(description, parser) over a Scanner, scanner.py:168-171:
+   error_context_info = (lineno, pos) *)
+Definition new_token_required (id : N) (desc : str) (p : scanner) : err :=
+  mkErr id (desc ++ k_expected) (fname_of (sc_filename p)) (SSyntax k_syntax_error (Some (sc_lineno p)))
+        (CScan (sc_text p) (Some (sc_lineno p)) (sc_pos p)).
+
+(* ... over a LowLevelParser: error_context_info = (command_start, lineno, pos), bibtex.py:158-159 *)
+Definition new_token_required_bib (id : N) (desc : str) (p : scanner) (start : option Z) : err :=
+  mkErr id (desc ++ k_expected) (fname_of (sc_filename p)) (SSyntax k_syntax_error (Some (sc_lineno p)))
+        (CBib (sc_text p) start (sc_pos p)).
+
+(* AuxDataError(message, context), auxfile.py:36-39: filename = context.filename, a copy of the context *)
+Definition new_aux_error (id : N) (msg : str) (c : auxctx) : err :=
+  mkErr id msg (fname_of (ax_filename c)) (SAux (ax_lineno c)) (CAux (ax_line c)).
+
+(* the state a Scanner is in when it raises TokenRequired: in front of a character that is not a
+   line boundary (required(): after the whitespace was skipped), with a line number that does not
+   exceed 1 + the number of \n / \r / \r\n before the position (tokens matched by get_token do
+   not advance lineno, so it may lag behind) *)
+Definition scan_state_ok (p : scanner) : Prop :=
+  exists pre c0 r, sc_text p = pre ++ c0 :: r /\ Z.of_nat (length pre) = sc_pos p /\ is_lb c0 = false /\
+                   (1 <= sc_lineno p <= 1 + Z.of_nat (count_newlines pre))%Z.
+(* the state of a LowLevelParser when it raises: the command start (the '@') lies before the position *)
+Definition bib_state_ok (p : scanner) (start : option Z) : Prop :=
+  exists s, start = Some s /\ (0 <= s < sc_pos p)%Z /\ (sc_pos p <= Z.of_nat (length (sc_text p)))%Z.
+
+(* every error object the package can construct, with what its raise sites guarantee *)
+Inductive constructed : err -> Prop :=
+| C_plain id msg fn : fn <> FnBad -> constructed (new_pybtex_error id msg fn)
+| C_syntax id etype msg p : constructed (new_syntax_error id etype msg p)
+| C_token id desc p : scan_state_ok p -> constructed (new_token_required id desc p)
+| C_token_bib id desc p start : bib_state_ok p start -> constructed (new_token_required_bib id desc p start)
+| C_aux id msg c : constructed (new_aux_error id msg c).
